@@ -136,6 +136,14 @@ func genC06(ctx *Ctx, r *rng) []Case {
 		if r.chance(1, 6) {
 			set[strings.Repeat("long/", 40)+"name"] = true
 		}
+		// path lengths around every byte boundary of the 2-byte length field (254 … 257, 511 … 513, ~4000)
+		if i%3 == 0 {
+			for _, n := range []int{254, 255, 256, 257, 300, 511, 512, 513, 1000, 4000}[(i/3)%5*2 : (i/3)%5*2+2] {
+				lp := strings.Repeat("deep/", n/5)
+				lp += strings.Repeat("n", n-len(lp))
+				set[lp] = true
+			}
+		}
 		if r.chance(1, 6) {
 			set["ünï/cödé \t x"] = true
 		}
